@@ -4,7 +4,6 @@ import (
 	"encoding/binary"
 	"reflect"
 	"unsafe"
-
 )
 
 // UnwindStack implements wazevo.unwindStack.
